@@ -1,4 +1,4 @@
-SPECIFICATION Spec
+SPECIFICATION SimSpec
 CONSTANTS
   MT = FALSE
   NZ = 4
